@@ -7,11 +7,13 @@ jp/script.go) and the SPECIFICATION (`OjgVerif.Script.Spec`); the model is tied 
 correspondence run of harness/cmd/script and, for the operator table, by `opTable_ok` over the
 regenerated `Gen.Script`.
 
-`Dev.pinned` is the unchanged code. It violates the property in three operator-level ways and one
-script-level way (known findings C12-uncomparable-panic, C12-neq-float, C12-int-via-float64,
-C12-bare-path); for each the full-strength statement is kept as a `def …_full : Prop`, refuted by a
-concrete witness, and proved in `_partial` form outside a named predicate. Statements with a `Dev`
-hypothesis (`d.uncmp = false` …) are about the code with the corresponding proposed fix applied. -/
+`Dev.pinned` is the tree as first pinned. It violated the property in three operator-level ways and one
+script-level way (C12-uncomparable-panic, repaired by 0a3fd2c; C12-neq-float, repaired by 21415f8;
+C12-int-via-float64 and C12-bare-path (its Filter() half), still known); for each the full-strength
+statement is kept as a `def …_full : Prop`, refuted by a concrete witness ("before <commit>" where the
+defect is repaired), and proved in `_partial` form outside a named predicate. Statements with a `Dev`
+hypothesis (`d.uncmp = false` …) are about the code with the corresponding fix applied; section 11 states
+the strongest results for `Dev.current`, the code as it is now. -/
 namespace OjgVerif.C12
 open OjgVerif OjgVerif.Script
 
@@ -109,7 +111,7 @@ theorem total_fixed (d : Dev) (h : d.uncmp = false) (rx : RxEngine) (prog : List
 def total_full : Prop :=
   ∀ (rx : RxEngine) (prog : List Item), prog ≠ [] → ∀ elem root, ∃ b, matchElem Dev.pinned rx prog elem root = .ok b
 
-/-- `[1] == [1]` panics -/
+/-- before 0a3fd2c: `[1] == [1]` panics -/
 theorem total_full_false : ¬ total_full := by
   intro h
   obtain ⟨b, hb⟩ := h rx0 [.op .eq, .val (.arr [.int 1]), .val (.arr [.int 1])] (by simp) .null .null
@@ -193,7 +195,7 @@ theorem eq_neq_complement (d : Dev) (hu : d.uncmp = false) (hq : d.neqFlt = fals
 def eq_neq_complement_full : Prop :=
   ∀ (rx : RxEngine) (l r : Val), ∃ b, evalOp Dev.pinned rx .eq l r = .ok (.bool b) ∧ evalOp Dev.pinned rx .neq l r = .ok (.bool (!b))
 
-/-- `1.5 == 2.5` and `1.5 != 2.5` are both false -/
+/-- before 21415f8: `1.5 == 2.5` and `1.5 != 2.5` are both false -/
 theorem eq_neq_complement_full_false : ¬ eq_neq_complement_full := by
   intro h
   obtain ⟨b, h1, h2⟩ := h rx0 (.flt (.fin 3 (-1))) (.flt (.fin 5 (-1)))
@@ -260,7 +262,7 @@ def num_matrix_full : Prop :=
   ∀ (rx : RxEngine) (o : Op), isCmp o = true → ∀ (l r : Val) (x y : Flt), Spec.num? l = some x → Spec.num? r = some y →
     evalOp Dev.pinned rx o l r = .ok (.bool (cmpNum o x y))
 
-/-- `9007199254740993 == 9007199254740992.0` is true in the unchanged code -/
+/-- `9007199254740993 == 9007199254740992.0` is true in the pinned code (and still: `num_matrix_current_full_false`) -/
 theorem num_matrix_full_false : ¬ num_matrix_full := by
   intro h
   have := h rx0 .eq rfl (.int 9007199254740993) (.flt (.fin 9007199254740992 0)) _ _ rfl rfl
@@ -389,7 +391,7 @@ def script_spec_full : Prop :=
   ∀ (rx : RxEngine) (t : Tm), t.wf = true → ∀ elem root,
     matchElem Dev.pinned rx (compile true t) elem root = .ok (Spec.matches rx t elem root)
 
-/-- `1.5 != 2.5` -/
+/-- before 21415f8: `1.5 != 2.5` -/
 theorem script_spec_full_false : ¬ script_spec_full := by
   intro h
   have := h rx0 (.app2 .neq (.const (.flt (.fin 3 (-1)))) (.const (.flt (.fin 5 (-1))))) rfl .null .null
@@ -444,5 +446,86 @@ theorem filter_spec (rx : RxEngine) (t : Tm) (hwf : t.wf = true) (h : isPath t =
   exact script_spec rx t hwf elem root
 
 example : isPath (.app2 .eq (.path ⟨false, []⟩) (.const (.int 1))) = false := rfl
+
+/-! ## 11. The code as it is now (`Dev.current`: after 0a3fd2c, 21415f8, fe63c88, cd355fe) -/
+
+/-- evaluation of any non-empty program on any element never faults -/
+theorem total_current (rx : RxEngine) (prog : List Item) (hne : prog ≠ []) (elem root : Val) :
+    ∃ b, matchElem Dev.current rx prog elem root = .ok b :=
+  total_fixed Dev.current rfl rx prog hne elem root
+
+/-- `==` and `!=` are complements for all operand kinds on both sides -/
+theorem eq_neq_complement_current (rx : RxEngine) (l r : Val) :
+    ∃ b, evalOp Dev.current rx .eq l r = .ok (.bool b) ∧ evalOp Dev.current rx .neq l r = .ok (.bool (!b)) :=
+  eq_neq_complement Dev.current rfl rfl rx l r
+
+/-- every operator application outside the int-via-float64 class computes the specified value -/
+theorem evalOp_current (rx : RxEngine) (o : Op) (l r : Val) (h : bigMixed o l r = false) :
+    evalOp Dev.current rx o l r = .ok (Spec.evalOp rx o l r) :=
+  evalOp_eq_spec_of Dev.current rx o l r (fun hu => by cases hu) (fun hq => by cases hq) (fun _ => h)
+
+def num_matrix_current_full : Prop :=
+  ∀ (rx : RxEngine) (o : Op), isCmp o = true → ∀ (l r : Val) (x y : Flt), Spec.num? l = some x → Spec.num? r = some y →
+    evalOp Dev.current rx o l r = .ok (.bool (cmpNum o x y))
+
+/-- still: `9007199254740993 == 9007199254740992.0` is true -/
+theorem num_matrix_current_full_false : ¬ num_matrix_current_full := by
+  intro h
+  have := h rx0 .eq rfl (.int 9007199254740993) (.flt (.fin 9007199254740992 0)) _ _ rfl rfl
+  have e : evalOp Dev.current rx0 .eq (.int 9007199254740993) (.flt (.fin 9007199254740992 0)) = .ok (.bool true) := rfl
+  rw [e] at this
+  have c : cmpNum .eq (.fin 9007199254740993 0) (.fin 9007199254740992 0) = false := by decide +kernel
+  rw [c] at this
+  cases this
+
+/-- all 6 × 4 numeric cells (now including `float != float`) compare exact values unless an int of
+magnitude ≥ 2^53 meets a float -/
+theorem num_matrix_current (rx : RxEngine) (o : Op) (ho : isCmp o = true)
+    (l r : Val) (x y : Flt) (hl : Spec.num? l = some x) (hr : Spec.num? r = some y) (h : bigMixed o l r = false) :
+    evalOp Dev.current rx o l r = .ok (.bool (cmpNum o x y)) := by
+  rw [evalOp_current rx o l r h]
+  cases o <;> simp [isCmp] at ho <;>
+    simp [Spec.evalOp, Spec.eqv, Spec.ltv, Spec.lev, hl, hr, cmpNum]
+
+example : bigMixed .neq (.flt (.fin 3 (-1))) (.flt (.fin 5 (-1))) = false := by decide +kernel
+
+def script_spec_current_full : Prop :=
+  ∀ (rx : RxEngine) (t : Tm), t.wf = true → ∀ elem root,
+    matchElem Dev.current rx (compile true t) elem root = .ok (Spec.matches rx t elem root)
+
+/-- still: the script `9007199254740993 == 9007199254740992.0` matches -/
+theorem script_spec_current_full_false : ¬ script_spec_current_full := by
+  intro h
+  have := h rx0 (.app2 .eq (.const (.int 9007199254740993)) (.const (.flt (.fin 9007199254740992 0)))) rfl .null .null
+  have e : matchElem Dev.current rx0 (compile true (.app2 .eq (.const (.int 9007199254740993)) (.const (.flt (.fin 9007199254740992 0))))) .null .null
+      = .ok true := rfl
+  have s : Spec.matches rx0 (.app2 .eq (.const (.int 9007199254740993)) (.const (.flt (.fin 9007199254740992 0)))) .null .null = false := by
+    decide +kernel
+  rw [e, s] at this
+  cases this
+
+/-- Script.Match (every Script() route) gives the specified verdict on every well-formed script none of
+whose comparisons — for any choice of the multi-valued operands — puts an int of magnitude ≥ 2^53 next to
+a float -/
+theorem script_spec_current (rx : RxEngine) (t : Tm) (hwf : t.wf = true) (elem root : Val)
+    (hclean : ∀ c ∈ Spec.choices elem root (Spec.normalise t), Clean Dev.current rx c = true) :
+    matchElem Dev.current rx (compile true t) elem root = .ok (Spec.matches rx t elem root) := by
+  rw [compile_true, matchElem_flatten_clean Dev.current rx _ (wf_normalise t hwf) elem root hclean]
+  rfl
+
+/-- a non-trivial instance that the pinned code got wrong: `@.f != 2.5 && @.m[*] == @.m[*]` on
+`{"f": 1.5, "m": [[], 1]}` (containers paired under `==`, a float on the left of `!=`) -/
+example : ∀ c ∈ Spec.choices (.obj [([102], .flt (.fin 3 (-1))), ([109], .arr [.arr [], .int 1])]) .null
+    (Spec.normalise (.app2 .and (.app2 .neq (.path ⟨false, [.child [102]]⟩) (.const (.flt (.fin 5 (-1)))))
+      (.app2 .eq (.path ⟨false, [.child [109], .wild]⟩) (.path ⟨false, [.child [109], .wild]⟩)))),
+    Clean Dev.current rx0 c = true := by decide +kernel
+
+/-- the filter route (`Equation.Filter()`), same hypothesis, on everything but a bare path; for a bare
+path `match_filter_full_false` still holds of the code (known finding C12-bare-path) -/
+theorem filter_spec_current (rx : RxEngine) (t : Tm) (hwf : t.wf = true) (hb : isPath t = false) (elem root : Val)
+    (hclean : ∀ c ∈ Spec.choices elem root (Spec.normalise t), Clean Dev.current rx c = true) :
+    matchElem Dev.current rx (compile false t) elem root = .ok (Spec.matches rx t elem root) := by
+  rw [match_filter t hb]
+  exact script_spec_current rx t hwf elem root hclean
 
 end OjgVerif.C12
